@@ -374,6 +374,11 @@ def real_step(world: World, op: dict, spy: SplitSpy) -> dict:
             impl.state, impl.hamiltonian, impl.config, impl.has_lindblad_noise, impl.dim = x, world.mpo_H, cfg, False, d
             lo = (k - 1) if name == "EvolvePair" else x.orthogonality_center
             hi = lo + 1 if name == "EvolvePair" else lo
+            if name == "EvolvePair" and x.orthogonality_center not in (lo, hi):
+                # the model enabled this step at ITS centre; the real object's centre is elsewhere (mechanism drift, reported by
+                # the centre comparison).  _evolve is an internal step with the precondition "centre on the pair": establish it
+                # with the public gauge move, which leaves the represented state unchanged
+                x.orthogonalize(lo)
             lb = torch.ones(1, 1, 1, dtype=torch.complex128)
             for i in range(lo):
                 lb = new_left_bath(lb, x.factors[i], world.mpo_H.factors[i])
